@@ -38,7 +38,8 @@ class C15(Prop):
     assumptions = ['each event\'s own log-probability is the result of the single-event forward task on the same data (the subject of C01) and '
                    'enters the model as an input',
                    'one location sample per event (location-sample sets shared between events are not modelled)',
-                   'all events of a case give relative amplitudes for one phase, so a station occurs at most once per event',
+                   'relative amplitudes on one phase, or on two phases observed at the same stations of an event (observations of a station are then paired '
+                   'in the order the phases are listed)',
                    'pure-Python path; log-probabilities below -600 count as zero on both sides']
     unproved = []
     rule = ('2..4 events, per-event polarity / polarity-probability / amplitude-ratio data as in C01 (no location samples), relative P, SH or SV '
@@ -64,6 +65,8 @@ class C15(Prop):
         for i in range(n):
             ne = rng.choice([2, 2, 3, 4])
             phase = rng.choice(['p', 'p', 'sh', 'sv'])
+            two_phase = phase == 'p' and rng.random() < 0.3
+            phase2 = 'sh'
             nt = rng.randint(1, 6)
             consistent = rng.random() < 0.35
             err_level = 0.0 if rng.random() < 0.15 else 10 ** rng.uniform(-5, -1)
@@ -110,7 +113,19 @@ class C15(Prop):
                     else:
                         amp = 10 ** rng.uniform(-2, 2) * rng.choice([1, 1, -1])
                         err = abs(amp) * rng.choice([10 ** rng.uniform(-3, 0), 10 ** rng.uniform(-2, -0.5)])
-                    rows.append({'name': nm, 'az': az, 'toa': toa, 'amp': amp, 'err': err})
+                    rows.append({'name': nm, 'az': az, 'toa': toa, 'amp': amp, 'err': err, 'phase': phase})
+                if two_phase:
+                    # the same stations observed on a second phase (listed after the first one, as the matrix builder does)
+                    extra = []
+                    for r in rows:
+                        if consistent:
+                            amp2 = k * abs(sum(a * b for a, b in zip(dg.coeff_row(phase2, r['az'], r['toa']), m_true)))
+                            err2 = amp2 * err_level
+                        else:
+                            amp2 = 10 ** rng.uniform(-2, 2)
+                            err2 = amp2 * 10 ** rng.uniform(-2, -0.5)
+                        extra.append({'name': r['name'], 'az': r['az'], 'toa': r['toa'], 'amp': amp2, 'err': err2, 'phase': phase2})
+                    rows = rows + extra
                 events.append({'abs': ev, 'rel': rows})
                 truth.append(m_true)
                 scales.append(k)
@@ -136,13 +151,13 @@ class C15(Prop):
     def _matrices(self, e, phase):
         np, inv = self.np, self.inv
         data, _loc = dg.to_mtfit(e['abs'], np)
-        if e['rel']:
-            rows = e['rel']
-            data[REL_KEYS[phase]] = {'Stations': {'Name': [r['name'] for r in rows],
-                                                  'Azimuth': np.matrix([[r['az']] for r in rows]),
-                                                  'TakeOffAngle': np.matrix([[r['toa']] for r in rows])},
-                                     'Measured': np.matrix([[r['amp']] for r in rows]),
-                                     'Error': np.matrix([[r['err']] for r in rows])}
+        for ph in sorted({r.get('phase', phase) for r in e['rel']}):
+            rows = [r for r in e['rel'] if r.get('phase', phase) == ph]
+            data[REL_KEYS[ph]] = {'Stations': {'Name': [r['name'] for r in rows],
+                                               'Azimuth': np.matrix([[r['az']] for r in rows]),
+                                               'TakeOffAngle': np.matrix([[r['toa']] for r in rows])},
+                                  'Measured': np.matrix([[r['amp']] for r in rows]),
+                                  'Error': np.matrix([[r['err']] for r in rows])}
         a_pol, err_pol, ipp = inv.polarity_matrix(data, False)
         a1, a2, ratio, pe1, pe2 = inv.amplitude_ratio_matrix(data, False)
         a_pp, pp, ipp2 = inv.polarity_probability_matrix(data, False)
@@ -213,13 +228,12 @@ class C15(Prop):
         np, pr = self.np, self.pr
         bj = {}
         for r in ej['rel']:
-            bj.setdefault(r['name'], r)
-        shared = [(r, bj[r['name']]) for r in ei['rel'] if r['name'] in bj]
+            bj.setdefault((r['name'], r.get('phase', phase)), r)
+        shared = [(r, bj[(r['name'], r.get('phase', phase))]) for r in ei['rel'] if (r['name'], r.get('phase', phase)) in bj]
         if not shared:
             return 0, None
-        ph = phase
-        a1 = np.array([[dg.coeff_row(ph, r['az'], r['toa'])] for r, _s in shared])
-        a2 = np.array([[dg.coeff_row(ph, s['az'], s['toa'])] for _r, s in shared])
+        a1 = np.array([[dg.coeff_row(r.get('phase', phase), r['az'], r['toa'])] for r, _s in shared])
+        a2 = np.array([[dg.coeff_row(s.get('phase', phase), s['az'], s['toa'])] for _r, s in shared])
         x1 = np.array([abs(r['amp']) for r, _s in shared])
         x2 = np.array([abs(s['amp']) for _r, s in shared])
         p1 = np.array([r['err'] / abs(r['amp']) for r, _s in shared])
@@ -264,7 +278,7 @@ class C15(Prop):
                 toks.append(str(len(ev[e]['rel'])))
                 for r in ev[e]['rel']:
                     toks.append(str(ranks[r['name']]))
-                    toks += [bits(v) for v in dg.coeff_row(ph, r['az'], r['toa'])]
+                    toks += [bits(v) for v in dg.coeff_row(r.get('phase', ph), r['az'], r['toa'])]
                     toks += [bits(abs(r['amp'])), bits(r['err'] / abs(r['amp']))]
             reqs.append('joint ' + ' '.join(toks))
         return reqs
